@@ -374,7 +374,8 @@ PanicAllowed(e) ==
 FormatVerdict(e) ==
   CASE e.op = "Sprintf" ->
          LET sp == SpecParse(e.spec) IN
-         IF ~sp.ok \/ sp.prec > 200 \/ sp.width > 2000 THEN "ok"
+         IF Has(e, "appanic") THEN "reject:Append-panic"                      \* whatever the spec string: no format makes Append panic (C20)
+         ELSE IF ~sp.ok \/ sp.prec > 200 \/ sp.width > 2000 THEN "ok"
          ELSE LET want == FormatSem(Decode(e.x), sp.verb, sp.prec, sp.width, sp.fl) IN
               IF Has(e, "fs") /\ e.fs # want THEN "specfault:toolchain-float64-differs"      \* FormatSem itself is tied to the installed fmt
               ELSE IF e.s # want THEN "reject:Sprintf"
